@@ -44,9 +44,15 @@ class ShouldRetryErr(Exception):
     should_retry = True
 
 
+class AllowedShouldRetryErr(AllowedErr):
+    """allowed (a subclass of the allowed class) and retryable (should_retry) at once"""
+    should_retry = True
+
+
 EXC = {
     'Allowed': AllowedErr, 'AllowedSub': AllowedSub, 'Retry': RetryErr, 'Other': OtherErr,
-    'Txn': core.OptimisticCheckError, 'ShouldRetry': ShouldRetryErr, 'KbInt': KeyboardInterrupt,
+    'Txn': core.OptimisticCheckError, 'ShouldRetry': ShouldRetryErr, 'AllowedShouldRetry': AllowedShouldRetryErr,
+    'KbInt': KeyboardInterrupt,
     'GenExit': GeneratorExit, 'HTTPResponse': None, 'HTTPError': None,
 }
 
@@ -122,6 +128,7 @@ class Outcome(object):
         self.exc = None            # name of the propagated exception class, or None
         self.ambiguous = False     # the documentation does not determine the outcome
         self.alt = None            # alternative acceptable (committed, execs, exc) when ambiguous
+        self.alts = []             # further acceptable outcomes of an ambiguous case (None: nothing is known)
         self.illegal = None        # 'TypeError' when the combination must be rejected
 
 
@@ -136,10 +143,10 @@ def exc_matches(name, kind, opts):
         if a == 'bottle':
             return name == 'HTTPResponse'
         if a in ('list', 'callable'):
-            return name in ('Allowed', 'AllowedSub')
+            return name in ('Allowed', 'AllowedSub', 'AllowedShouldRetry')
         return False
     r = opts.get('retry_exc', 'default')
-    if name == 'ShouldRetry':
+    if name in ('ShouldRetry', 'AllowedShouldRetry'):
         return True
     if r == 'default':
         return name in ('Txn', 'CommitFailed', 'NestErr')
@@ -267,15 +274,26 @@ def spec(case):
                 out.exc = 'CallableBoom'
                 return out
             if is_allowed and is_retry:
+                # allowed and retryable at once: which of the two wins is not documented.  Acceptable: (A) retryable
+                # wins throughout - nothing of a failed attempt is kept; (B) the same, but when the retries are used
+                # up the last attempt is committed as an allowed one; (C) allowed wins - the first such attempt is
+                # committed and the exception propagates without a re-run.  What no reading permits: an attempt
+                # that is re-run AND kept ("each attempt starting from the committed state").
                 out.ambiguous = True
+                if not st['fault'] and not out.alts:
+                    out.alts.append((set(st['committed']) | set(st['pending']), out.execs, name))      # (C)
             if allowed == 'callable_raises' and is_retry:
                 out.ambiguous = True     # does a failing allowed_exceptions callable abort the retry loop? undocumented
+                out.alts = None
             if is_retry:
+                pend = set(st['pending'])
                 st['pending'] = set()
                 if k + 1 < attempts:
                     continue
                 out.committed = set(st['committed'])
                 out.exc = name
+                if is_allowed and not st['fault'] and out.alts is not None:
+                    out.alts.append((set(st['committed']) | pend, out.execs, name))                    # (B)
                 return out
             if is_allowed:
                 # commit what the body did, the exception still propagates
@@ -506,7 +524,7 @@ def classify(e):
         return None
     if isinstance(e, CallableBoom):
         return 'CallableBoom'
-    for name in ('AllowedSub', 'Allowed', 'Retry', 'Other', 'ShouldRetry'):
+    for name in ('AllowedSub', 'Allowed', 'Retry', 'Other', 'ShouldRetry', 'AllowedShouldRetry'):
         if type(e) is EXC[name]:
             return name
     if isinstance(e, KeyboardInterrupt):
@@ -594,6 +612,11 @@ def run_case(case, scratch):
         acceptable = [(exp.committed, exp.execs, exp.exc)]
         if exp.ambiguous:
             acceptable = None
+            if exp.alts and (got, r.execs, got_exc) not in [(exp.committed, exp.execs, exp.exc)] + exp.alts:
+                viol('wrong-outcome-for-allowed-and-retryable',
+                     'rows %r after %d execution(s), exception %r: none of the readings of "allowed and retryable" gives '
+                     'that (acceptable: %r)' % (sorted(got), r.execs, got_exc,
+                                                [(sorted(c_), n_, e_) for c_, n_, e_ in [(exp.committed, exp.execs, exp.exc)] + exp.alts]))
         if acceptable is not None:
             if got != exp.committed:
                 missing, extra = sorted(exp.committed - got), sorted(got - exp.committed)
